@@ -179,6 +179,31 @@ def origins_through_try(body, o, depth=6):
     return out
 
 
+def is_param_itself(body, o, n, depth=6):
+    """operand o is parameter n of the body - as it is, or a (re)borrow / copy of it; nothing computed from it"""
+    if not is_local_op(o):
+        return False
+    if o['l'] == n:
+        return True
+    ogs = origins(body, o)
+    if not ogs:
+        return False
+    for org in ogs:
+        if org[0] == 'param':
+            if org[1] != n:
+                return False
+        elif org[0] == 'place':
+            if not (org[1]['l'] == n or (depth > 0 and is_param_itself(body, {'l': org[1]['l'], 'p': []}, n, depth - 1))):
+                return False
+        elif isinstance(org[1], dict) and org[1].get('k') == 'assign' and org[1]['rv']['k'] in ('ref', 'rawptr'):
+            pl = org[1]['rv']['pl']
+            if not (pl['l'] == n or (depth > 0 and is_param_itself(body, {'l': pl['l'], 'p': []}, n, depth - 1))):
+                return False
+        else:
+            return False
+    return True
+
+
 def forward_taint(body, seeds, through_refs=True):
     """locals that receive a (copy/move/ref/cast of a) seed local; returns set of locals."""
     t = set(seeds)
